@@ -15,56 +15,56 @@ CORE = {"orders", "orders.status", "orders.vol", "orders.price", "orders.times",
 
 # profile plans: (profile, histories, ops per history, extra drive args)
 PLANS = {
-    "C01": {"quick": [("enum", "d3", 4, 3, []), ("book", "disciplined", 800, 60, []), ("book", "modify", 200, 50, []), ("book", "wide", 100, 60, []), ("book", "mixed", 200, 80, ["--levels", "1,3,10"])],
+    "C01": {"quick": [("enum", "d3", 4, 3, []), ("book", "disciplined", 2400, 60, []), ("book", "modify", 600, 50, []), ("book", "wide", 300, 60, []), ("book", "mixed", 600, 80, ["--levels", "1,3,10"])],
             "thorough": [("enum", "d4", 16, 4, []), ("book", "disciplined", 12000, 120, ["--levels", "1,3,10,24"]), ("book", "modify", 3000, 100, []),
                          ("book", "wide", 2000, 100, []), ("book", "toggle", 2000, 100, []), ("book", "mixed", 3000, 120, ["--levels", "1,3,10"])]},
-    "C02": {"quick": [("enum", "d3", 4, 3, []), ("book", "disciplined", 300, 60, ["--levels", "1,2,3,5,10,24"]), ("book", "toggle", 300, 60, ["--levels", "1,2,3,5,10,24"]),
-                      ("book", "modify", 200, 60, ["--levels", "1,3,10"]), ("book", "reload", 100, 60, ["--levels", "1,5,24"]),
-                      ("market", "plain", 60, 80, []), ("book", "mixed", 200, 80, ["--levels", "1,3,10"])],
+    "C02": {"quick": [("enum", "d3", 4, 3, []), ("book", "disciplined", 900, 60, ["--levels", "1,2,3,5,10,24"]), ("book", "toggle", 900, 60, ["--levels", "1,2,3,5,10,24"]),
+                      ("book", "modify", 600, 60, ["--levels", "1,3,10"]), ("book", "reload", 300, 60, ["--levels", "1,5,24"]),
+                      ("market", "plain", 180, 80, []), ("book", "mixed", 600, 80, ["--levels", "1,3,10"])],
             "thorough": [("enum", "d4", 16, 4, []), ("book", "disciplined", 8000, 120, ["--levels", "1,2,3,5,10,24"]), ("book", "toggle", 5000, 120, ["--levels", "1,2,3,5,10,24"]),
                          ("book", "modify", 3000, 120, ["--levels", "1,3,10"]), ("book", "reload", 2000, 100, ["--levels", "1,5,24"]),
                          ("book", "wide", 2000, 100, []), ("market", "plain", 1000, 100, []), ("menv", "plain", 1000, 10, []), ("book", "mixed", 3000, 120, ["--levels", "1,3,10"])]},
-    "C03": {"quick": [("enum", "d3", 4, 3, []), ("book", "disciplined", 400, 60, []), ("book", "toggle", 200, 60, []), ("book", "modify", 300, 60, []), ("book", "mixed", 200, 80, ["--levels", "1,3,10"])],
+    "C03": {"quick": [("enum", "d3", 4, 3, []), ("book", "disciplined", 1200, 60, []), ("book", "toggle", 600, 60, []), ("book", "modify", 900, 60, []), ("book", "mixed", 600, 80, ["--levels", "1,3,10"])],
             "thorough": [("enum", "d4", 16, 4, []), ("book", "disciplined", 10000, 120, []), ("book", "toggle", 4000, 120, []), ("book", "modify", 4000, 120, []),
                          ("book", "wide", 2000, 100, []), ("market", "plain", 1000, 100, []), ("book", "mixed", 3000, 120, ["--levels", "1,3,10"])]},
-    "C04": {"quick": [("enum", "d3", 4, 3, []), ("book", "redundant", 500, 80, []), ("book", "toggle", 200, 60, []), ("book", "modify", 150, 60, []), ("book", "mixed", 200, 80, ["--levels", "1,3,10"])],
+    "C04": {"quick": [("enum", "d3", 4, 3, []), ("book", "redundant", 1500, 80, []), ("book", "toggle", 600, 60, []), ("book", "modify", 450, 60, []), ("book", "mixed", 600, 80, ["--levels", "1,3,10"])],
             "thorough": [("enum", "d3", 4, 3, []), ("enum", "d3tick1", 4, 3, ["--tick", "1"]), ("book", "redundant", 8000, 150, []), ("book", "toggle", 3000, 120, []), ("book", "disciplined", 3000, 120, []),
                          ("book", "modify", 3000, 120, []), ("book", "mixed", 3000, 120, ["--levels", "1,3,10"])]},
-    "C05": {"quick": [("enum", "d3ties", 4, 3, ["--ties", "1"]), ("book", "ties", 500, 60, []), ("book", "ties", 200, 60, ["--prices", "2"]),
-                      ("env", "overfull", 100, 8, []), ("menv", "overfull", 100, 8, [])],
+    "C05": {"quick": [("enum", "d3ties", 4, 3, ["--ties", "1"]), ("book", "ties", 1500, 60, []), ("book", "ties", 600, 60, ["--prices", "2"]),
+                      ("env", "overfull", 300, 8, []), ("menv", "overfull", 300, 8, [])],
             "thorough": [("enum", "d4ties", 16, 4, ["--ties", "1"]), ("book", "ties", 12000, 120, []), ("book", "ties", 4000, 100, ["--prices", "2"]),
                          ("book", "ties", 2000, 100, ["--levels", "1,10,24"]),
                          ("env", "overfull", 2000, 12, []), ("menv", "overfull", 2000, 12, [])]},
-    "C06": {"quick": [("enum", "d3", 4, 3, []), ("book", "modify", 500, 40, ["--levels", "5"]), ("book", "modify", 200, 60, ["--prices", "2"]),
-                      ("book", "toggle", 300, 60, []), ("book", "mixed", 200, 80, ["--levels", "1,3,10"])],
+    "C06": {"quick": [("enum", "d3", 4, 3, []), ("book", "modify", 1500, 40, ["--levels", "5"]), ("book", "modify", 600, 60, ["--prices", "2"]),
+                      ("book", "toggle", 900, 60, []), ("book", "mixed", 600, 80, ["--levels", "1,3,10"])],
             "thorough": [("enum", "d4", 16, 4, []), ("book", "modify", 10000, 80, ["--levels", "5"]), ("book", "modify", 4000, 120, ["--prices", "2"]),
                          ("book", "toggle", 2000, 100, []), ("book", "mixed", 3000, 120, ["--levels", "1,3,10"])]},
-    "C07": {"quick": [("book", "reload", 300, 60, ["--levels", "1,10"]), ("market", "reload", 100, 80, ["--levels", "1,10"]), ("book", "mixed", 200, 80, ["--levels", "1,3,10"])],
+    "C07": {"quick": [("book", "reload", 900, 60, ["--levels", "1,10"]), ("market", "reload", 300, 80, ["--levels", "1,10"]), ("book", "mixed", 600, 80, ["--levels", "1,3,10"])],
             "thorough": [("book", "reload", 6000, 120, ["--levels", "1,3,10,24"]), ("market", "reload", 2000, 120, ["--levels", "1,3,10"]), ("book", "mixed", 3000, 120, ["--levels", "1,3,10"])]},
-    "C08": {"quick": [("env", "plain", 300, 8, ["--levels", "3"]), ("menv", "plain", 200, 8, ["--levels", "3"]),
-                      ("env", "toggle", 100, 8, []), ("menv", "toggle", 100, 8, [])],
+    "C08": {"quick": [("env", "plain", 900, 8, ["--levels", "3"]), ("menv", "plain", 600, 8, ["--levels", "3"]),
+                      ("env", "toggle", 300, 8, []), ("menv", "toggle", 300, 8, [])],
             "thorough": [("env", "plain", 5000, 12, ["--levels", "1,3,10"]), ("menv", "plain", 4000, 12, ["--levels", "1,3,10"]),
                          ("env", "toggle", 2000, 12, []), ("menv", "toggle", 2000, 12, [])]},
-    "C10": {"quick": [("env", "plain", 200, 8, []), ("menv", "plain", 200, 8, []), ("menv", "toggle", 100, 8, [])],
+    "C10": {"quick": [("env", "plain", 600, 8, []), ("menv", "plain", 600, 8, []), ("menv", "toggle", 300, 8, [])],
             "thorough": [("env", "plain", 4000, 12, ["--levels", "1,3,10"]), ("menv", "plain", 4000, 12, ["--levels", "1,3,10"]),
                          ("menv", "toggle", 2000, 12, []), ("env", "malformed", 1000, 10, [])]},
-    "C11": {"quick": [("env", "plain", 200, 10, ["--levels", "1,2,5,10,24"]), ("menv", "plain", 200, 10, ["--levels", "1,3,10"])],
+    "C11": {"quick": [("env", "plain", 600, 10, ["--levels", "1,2,5,10,24"]), ("menv", "plain", 600, 10, ["--levels", "1,3,10"])],
             "thorough": [("env", "plain", 5000, 30, ["--levels", "1,2,5,10,24"]), ("menv", "plain", 4000, 30, ["--levels", "1,3,10"]),
                          ("menv", "toggle", 1000, 20, [])]},
-    "C12": {"quick": [("book", "malformed", 400, 50, []), ("book", "disciplined", 100, 50, []), ("book", "edge", 300, 50, ["--levels", "3,10"]),
-                      ("market", "malformed", 100, 60, []), ("env", "malformed", 100, 6, []), ("menv", "malformed", 100, 6, [])],
+    "C12": {"quick": [("book", "malformed", 1200, 50, []), ("book", "disciplined", 300, 50, []), ("book", "edge", 900, 50, ["--levels", "3,10"]),
+                      ("market", "malformed", 300, 60, []), ("env", "malformed", 300, 6, []), ("menv", "malformed", 300, 6, [])],
             "thorough": [("book", "malformed", 10000, 100, []), ("book", "disciplined", 2000, 100, []), ("book", "wide", 1000, 100, []),
                          ("book", "edge", 5000, 80, ["--levels", "1,3,10,24"]),
                          ("market", "malformed", 2000, 100, []), ("env", "malformed", 2000, 10, []), ("menv", "malformed", 2000, 10, [])]},
-    "C13": {"quick": [("enum", "d3toggle", 4, 3, ["--toggle", "1"]), ("book", "toggle", 500, 60, []), ("market", "plain", 100, 80, []), ("env", "toggle", 100, 8, []),
-                      ("menv", "toggle", 100, 8, []), ("book", "mixed", 200, 80, ["--levels", "1,3,10"])],
+    "C13": {"quick": [("enum", "d3toggle", 4, 3, ["--toggle", "1"]), ("book", "toggle", 1500, 60, []), ("market", "plain", 300, 80, []), ("env", "toggle", 300, 8, []),
+                      ("menv", "toggle", 300, 8, []), ("book", "mixed", 600, 80, ["--levels", "1,3,10"])],
             "thorough": [("enum", "d3toggleties", 4, 3, ["--toggle", "1", "--ties", "1", "--profile", "toggle"]), ("enum", "d3toggle", 4, 3, ["--toggle", "1"]), ("book", "toggle", 12000, 120, []), ("book", "toggle", 2000, 100, ["--prices", "2"]),
                          ("market", "plain", 2000, 100, []), ("env", "toggle", 2000, 12, []), ("menv", "toggle", 2000, 12, []), ("book", "mixed", 3000, 120, ["--levels", "1,3,10"])]},
-    "C14": {"quick": [("market", "plain", 300, 80, ["--levels", "1,3,10"]), ("menv", "plain", 200, 8, ["--assets", "1,2,3,4"]),
-                      ("menv", "toggle", 100, 8, ["--assets", "2,3,4"])],
+    "C14": {"quick": [("market", "plain", 900, 80, ["--levels", "1,3,10"]), ("market", "malformed", 450, 60, []), ("menv", "plain", 600, 8, ["--assets", "1,2,3,4"]),
+                      ("menv", "toggle", 300, 8, ["--assets", "2,3,4"])],
             "thorough": [("market", "plain", 5000, 200, ["--levels", "1,3,10"]), ("menv", "plain", 4000, 12, ["--assets", "1,2,3,4"]),
-                         ("menv", "toggle", 2000, 12, ["--assets", "2,3,4"]), ("market", "reload", 1000, 100, [])]},
-    "C15": {"quick": [("env", "plain", 400, 8, []), ("menv", "plain", 300, 8, []), ("env", "overfull", 100, 6, [])],
+                         ("menv", "toggle", 2000, 12, ["--assets", "2,3,4"]), ("market", "reload", 1000, 100, []), ("market", "malformed", 2000, 100, [])]},
+    "C15": {"quick": [("env", "plain", 1200, 8, []), ("menv", "plain", 900, 8, []), ("env", "overfull", 300, 6, [])],
             "thorough": [("env", "plain", 20000, 10, []), ("menv", "plain", 10000, 10, []), ("env", "overfull", 3000, 8, [])]},
 }
 
